@@ -40,6 +40,18 @@ def base_name(n):
     return n[: -len(SUFFIX)] if n.endswith(SUFFIX) else n
 
 
+def key_own_ok(k, base):
+    """is `base` an algorithm of THIS key: an RSA name for an RSA key, the key's own curve identifier for ECDSA,
+    ssh-ed25519 for Ed25519 (independent of verify_ssh_sig)"""
+    from paramiko.rsakey import RSAKey
+
+    if isinstance(k, RSAKey):
+        return base in RSA_NAMES
+    if getattr(k, "ecdsa_curve", None) is not None:
+        return base == "ecdsa-sha2-" + k.ecdsa_curve.nist_name
+    return base == "ssh-ed25519"
+
+
 def names_tok(l):
     return ",".join(hx(x.encode() if isinstance(x, str) else x) for x in l) or "-"
 
@@ -72,8 +84,26 @@ class Keys:
         h = {"ssh-rsa": hashes.SHA1, "rsa-sha2-256": hashes.SHA256, "rsa-sha2-512": hashes.SHA512}[algo]
         return self.rsa.key.sign(data, padding.PKCS1v15(), h())
 
+    def ecdsa_body(self, key, data, hash_name):
+        """an ECDSA signature by `key` over `data` with the NAMED hash (whatever the key's own curve asks for),
+        in SSH form (mpint r, mpint s) — made with `cryptography` directly"""
+        from cryptography.hazmat.primitives import hashes
+        from cryptography.hazmat.primitives.asymmetric import ec
+        from cryptography.hazmat.primitives.asymmetric.utils import decode_dss_signature
+
+        h = {"sha256": hashes.SHA256, "sha384": hashes.SHA384, "sha512": hashes.SHA512}[hash_name]
+        r, s = decode_dss_signature(key.signing_key.sign(data, ec.ECDSA(h())))
+        return L.raw_mpint(r) + L.raw_mpint(s)
+
     def rsa_flags(self, data, body):
-        """the library's verdict under SHA-1 / SHA-256 / SHA-512, asked directly"""
+        """the library's verdict under SHA-1 / SHA-256 / SHA-512, asked directly.  A signature SHORTER than the
+        modulus is left-padded with zeros first (documented PuTTY compatibility); nothing is ever trimmed."""
+        size = (self.rsa.key.key_size + 7) // 8
+        if len(body) < size:
+            body = b"\x00" * (size - len(body)) + body
+        return self._rsa_flags(data, body)
+
+    def _rsa_flags(self, data, body):
         from cryptography.exceptions import InvalidSignature
         from cryptography.hazmat.primitives import hashes
         from cryptography.hazmat.primitives.asymmetric import padding
@@ -232,6 +262,12 @@ def signature_variants(K, data, family, key=None):
     out = []
     if family == "rsa":
         bodies = [(a, K.rsa_body(data, a)) for a in RSA_NAMES] + [("other-data", K.rsa_body(b"not" + data, "rsa-sha2-256"))]
+        # a valid signature with octets PREPENDED / APPENDED inside the signature string, or with its leading octet
+        # dropped: the field as received is not a signature of the key's size
+        for a in RSA_NAMES:
+            good = K.rsa_body(data, a)
+            bodies += [("junk1+" + a, b"\x5a" + good), ("junk8+" + a, b"\xa5" * 8 + good), ("junk300+" + a, os.urandom(300) + good),
+                       ("zero1+" + a, b"\x00" + good), (a + "+junk1", good + b"\x00")]
         names = [n.encode() for n in RSA_NAMES] + [(n + SUFFIX).encode() for n in RSA_NAMES] + \
                 [b"", b"ssh-dss", b"rsa-sha2-512\xff", b"ecdsa-sha2-nistp256", b"RSA-SHA2-512", b"rsa-sha2-512 "]
         for (made, body), name in itertools.product(bodies, names):
@@ -239,12 +275,19 @@ def signature_variants(K, data, family, key=None):
     else:
         good = K.fixed_body(key, data)
         bad = K.fixed_body(key, b"not" + data)
+        per_hash = []
+        if hasattr(key, "ecdsa_curve"):
+            own = {256: "sha256", 384: "sha384", 521: "sha512"}[int(key.ecdsa_curve.nist_name[5:])]
+            for hname in ("sha256", "sha384", "sha512"):
+                per_hash.append((hname, K.ecdsa_body(key, data, hname), "0001" if hname == own else "0000"))
         names = [b"ecdsa-sha2-nistp256", b"ecdsa-sha2-nistp384", b"ecdsa-sha2-nistp521", b"ssh-ed25519", b"ssh-rsa",
                  b"rsa-sha2-512", b"ecdsa-sha2-nistp256" + SUFFIX.encode(), b"ssh-ed25519" + SUFFIX.encode(), b"",
                  b"ssh-ed25519\xc3"]
         for name in names:
             out.append((name, good, "0001", "good-body/%r" % name.decode("latin-1")))
             out.append((name, bad, "0000", "other-data/%r" % name.decode("latin-1")))
+            for hname, body, flags in per_hash:
+                out.append((name, body, flags, "%s-body/%r" % (hname, name.decode("latin-1"))))
     return out
 
 
@@ -330,6 +373,12 @@ def client_path(ctx, K):
                                  "_verify_key returned normally for a host key blob that is empty / does not parse")
                     elif st == "ok":
                         want = base_name(negotiated).encode()
+                        if not key_own_ok(_k, base_name(negotiated)):
+                            ctx.fail("key-of-another-algorithm-accepted:kex",
+                                     {"negotiated": negotiated, "key": _k.get_name(), "blob_algorithm": name.decode("latin-1"),
+                                      "disabled": dis, "signature": label},
+                                     "_verify_key accepted a %s host key and its signature under the negotiated %r"
+                                     % (_k.get_name(), negotiated))
                         if name != want or base_name(negotiated) in dis or negotiated in dis:
                             ctx.fail("sig-algo-mismatch-accepted:kex",
                                      {"negotiated": negotiated, "blob_algorithm": name.decode("latin-1"),
@@ -425,6 +474,11 @@ def server_path(ctx, K):
                 if ("success" in impl) != bool(ah.authenticated):
                     ctx.fail("auth-flag-inconsistent", {"declared": decl}, "sent %s authenticated=%s" % (impl, ah.authenticated))
                 # ---- oracle
+                if "success" in impl and _k is not None and not key_own_ok(_k, base_name(decl)):
+                    ctx.fail("key-of-another-algorithm-accepted:auth",
+                             {"declared": decl, "key": _k.get_name(), "disabled": dis, "signature": label,
+                              "blob_algorithm": None if name is None else name.decode("latin-1")},
+                             "publickey auth succeeded with a %s key and signature under the declared %r" % (_k.get_name(), decl))
                 if "success" in impl:
                     want = base_name(decl).encode()
                     if name is None or name != want or base_name(decl) in dis:
@@ -617,6 +671,29 @@ def e2e(ctx, K):
                      "client accepted a nistp384 key and signature under a negotiated ecdsa-sha2-nistp256")
     finally:
         e.close()
+    # --- kex: a P-384 host key whose signature is LABELLED nistp256 and made with SHA-256 (what the label asks for)
+    import copy
+    from paramiko.message import Message as _Msg
+
+    for cdis in (None, ["ecdsa-sha2-nistp384"]):
+        p384 = copy.copy(K.ec["ecdsa-sha2-nistp384"])
+        p384.sign_ssh_data = lambda data, algorithm=None: _Msg(
+            s_(b"ecdsa-sha2-nistp256") + s_(K.ecdsa_body(K.ec["ecdsa-sha2-nistp384"], data, "sha256")))
+        e = L.E2E("c25519", K.ec["ecdsa-sha2-nistp256"], key_algo="ecdsa-sha2-nistp256")
+        e.ts.server_key_dict["ecdsa-sha2-nistp256"] = p384
+        if cdis:
+            e.tc.disabled_algorithms = {"keys": cdis}
+        try:
+            err = e.handshake(timeout=60)
+            ctx.case(("e2e-kex", "nistp256", "p384-key-relabelled", tuple(cdis or [])), True)
+            ctx.dist("e2e-kex:nistp256-with-relabelled-p384-signature:%s" % ("aborted" if err else "completed"))
+            if err is None:
+                ctx.fail("key-of-another-algorithm-accepted:kex",
+                         {"negotiated": "ecdsa-sha2-nistp256", "key": "ecdsa-sha2-nistp384", "blob_algorithm":
+                          "ecdsa-sha2-nistp256", "disabled": cdis, "level": "end-to-end"},
+                         "client accepted a nistp384 host key whose SHA-256 signature is labelled ecdsa-sha2-nistp256")
+        finally:
+            e.close()
     # --- auth: the client declares rsa-sha2-512 and signs with SHA-1
     for forced, sdis in [("ssh-rsa", None), ("ssh-rsa", ["ssh-rsa"]), ("rsa-sha2-256", None), ("rsa-sha2-512", None)]:
         e = L.E2E("c25519", K.ed)
@@ -746,7 +823,9 @@ def run(ctx):
                 "their cert forms, empty, foreign, non-UTF-8, case/space variants) x 4 signature bodies (made with SHA-1, "
                 "SHA-256, SHA-512, over other data) on BOTH real paths (_parse_kex_init + _verify_key; "
                 "_parse_userauth_request); ECDSA P-256/384/521 and Ed25519 keys x 8-9 negotiated/declared names x 10 blob "
-                "names x good/bad body x 3 disabled sets; request SEQUENCES on one real AuthHandler (unsigned query naming A, "
+                "names x bodies (the key's own signature, over other data, and made with SHA-256/384/512 whatever the curve) x 3 "
+                "disabled sets — accept only if declared = label = the key's OWN algorithm; RSA bodies also with octets "
+                "prepended/appended inside the signature string; request SEQUENCES on one real AuthHandler (unsigned query naming A, "
                 "then signed request naming B, all 18 same-key pairs x 8 disabled subsets; failed attempt then good one; "
                 "two queries then signed; SHA-1-signed after a query) and through a raw scripted client end to end; plus no-signature and callback-refuses requests, seeded "
                 "disabled sets for preferred_keys/pubkeys, replace() strings. non-trivial = blob name differs from the "
